@@ -59,6 +59,24 @@ type c12 struct {
 	e      *env
 	worker string
 	buildS float64
+	enum   bool
+}
+
+func boolTo(b bool) uint64 {
+	if b {
+		return 1
+	}
+	return 0
+}
+
+func (x *c12) enumSize() uint64 {
+	out, err := run(x.e.scratch, os.Environ(), x.worker, "-enum-size")
+	if err != nil {
+		trouble(x.e, "enum-size: %v %s", err, out)
+	}
+	var n uint64
+	fmt.Sscan(strings.TrimSpace(out), &n)
+	return n
 }
 
 func (x *c12) build() {
@@ -191,10 +209,12 @@ func (x *c12) sweep(a *agg12, base uint64, first uint64, deadline time.Time, wor
 					to = first + maxRuns
 				}
 				args := []string{"-base", fmt.Sprint(base), "-from", fmt.Sprint(from), "-to", fmt.Sprint(to), "-profile", "mixed"}
-				if x.e.tier == "thorough" && !record && (to/chunk)%2 == 0 {
+				if x.enum {
+					args = append(args, "-enum")
+				} else if x.e.tier == "thorough" && !record && (to/chunk)%2 == 0 {
 					args = append(args, "-deep")
 				}
-				lines, exit, se, timed := x.spawn(300*time.Second, "off", args...)
+				lines, exit, se, timed := x.spawn(300*time.Second, "100", args...)
 				if timed || exit != 0 {
 					// find the in-flight run
 					var infl *line12
@@ -743,9 +763,26 @@ func mainC12(e *env) {
 	if div > 0 {
 		trouble(e, "the history simulator is not deterministic (%d of %d histories differ between processes)", div, len(d1.outHashes))
 	}
-	fmt.Printf("  determinism: %d histories executed twice in separate processes (GOGC off / GOGC=1) with identical outcomes\n", len(d1.outHashes))
+	fmt.Printf("  determinism: %d histories executed twice in separate processes (GOGC=100 / GOGC=1) with identical outcomes\n", len(d1.outHashes))
+
+	// systematic part: every ordered pair of canonical operations on every canonical layout
+	en := newAgg12()
+	enumN := x.enumSize()
+	if e.tier != "thorough" {
+		// quick: a seed-chosen quarter of the enumeration
+		enumN /= 4
+	}
+	t0e := time.Now()
+	x.enum = true
+	x.sweep(en, 0, (e.seed%4)*enumN*boolTo(e.tier != "thorough"), time.Now().Add(20*time.Minute), 16, 500, enumN, false)
+	x.enum = false
+	if en.troubleS != "" {
+		trouble(e, "%s", en.troubleS)
+	}
+	fmt.Printf("  enumeration: %d histories (layout x op x op) in %.1fs, %d failing\n", en.runs, time.Since(t0e).Seconds(), len(en.failures))
 
 	a := newAgg12()
+	a.failures = append(a.failures, en.failures...)
 	t1 := time.Now()
 	x.sweep(a, e.seed, 0, time.Now().Add(time.Duration(secs)*time.Second), 16, 250, 0, false)
 	sweepS := time.Since(t1).Seconds()
@@ -834,6 +871,8 @@ func mainC12(e *env) {
 			"distinct_nontrivial = number of distinct sequences of (operation kind, addressing mode) among histories with at least 3 effective edits (edits that changed the model)",
 		"samples":                     x.samples(2),
 		"histories_per_hour":          float64(a.runs) / hours,
+		"enumerated_histories":        en.runs,
+		"enumeration_rule":            "every ordered pair of the canonical operations applied to every canonical layout of a small initial file (quick: a seed-chosen quarter of that space; thorough: all of it)",
 		"seeds":                       a.runs,
 		"simulated_time_steps":        a.ops,
 		"effective_edits":             a.effective,
